@@ -159,6 +159,133 @@ theorem cleanup_safe_partial (t : Timeouts) (now tReal : Nat) (ct ct' : AMap Key
   · exact Or.inl h
   · exact Or.inr ⟨r, h1, h2, hsub _ _ h3⟩
 
+/-- **The one situation excluded by the known finding** (`deleted-fwd-of-live-pair`): the removed entry
+is a forward NAT entry, untouched since the scan, whose reverse entry existed at the scan, was idle
+past its timeout, and carried EXACTLY the same `last_seen` as the forward entry.  Only then does the
+scanner queue the forward entry on its own time stamp, and only then is nothing known about the
+reverse entry when the cleaner acts. -/
+def GapCase (t : Timeouts) (now : Nat) (ct : AMap Key Entry) (x : Key) (e : Entry) : Prop :=
+  ct.get x = some e ∧ e.typ = .fwd ∧
+    ∃ r, ct.get e.revKey = some r ∧ expired t now x.proto r = true ∧ r.lastSeen = e.lastSeen
+
+theorem removal_gap_split (t : Timeouts) (now : Nat) (ct ct' : AMap Key Entry) (x : Key) (e : Entry) :
+    Removal true t now ct ct' x e ↔ (Removal false t now ct ct' x e ∨ GapCase t now ct x e) := by
+  unfold Removal GapCase
+  constructor
+  · rintro (⟨h0, h | h | h | ⟨_, h⟩⟩ | h)
+    · exact Or.inl (Or.inl ⟨h0, Or.inl h⟩)
+    · exact Or.inl (Or.inl ⟨h0, Or.inr (Or.inl h)⟩)
+    · exact Or.inl (Or.inl ⟨h0, Or.inr (Or.inr (Or.inl h))⟩)
+    · exact Or.inr ⟨h0, h⟩
+    · exact Or.inl (Or.inr h)
+  · rintro ((⟨h0, h | h | h | ⟨hf, _⟩⟩ | h) | ⟨h0, h⟩)
+    · exact Or.inl ⟨h0, Or.inl h⟩
+    · exact Or.inl ⟨h0, Or.inr (Or.inl h)⟩
+    · exact Or.inl ⟨h0, Or.inr (Or.inr (Or.inl h))⟩
+    · exact absurd hf (by decide)
+    · exact Or.inr h
+    · exact Or.inl ⟨h0, Or.inr (Or.inr (Or.inr ⟨rfl, h⟩))⟩
+
+/-- **Safety outside the known finding**: every removal is fully justified (`Removal false`: judged idle
+past its timeout — itself or through its reverse entry — and not touched since, the reverse entry of a
+forward entry included) unless it is exactly the `GapCase`.  Anything else the cleaner might remove is
+a violation of this theorem, i.e. is still reported by the check. -/
+theorem cleanup_safe_except_gap (t : Timeouts) (now tReal : Nat) (ct : AMap Key Entry) (queue : AMap Key QVal)
+    (hq : ∀ kq ∈ queue, QSound t now ct kq)
+    (hold : ∀ k e, ct.get k = some e → e.lastSeen ≤ tReal)
+    (hproto : ∀ k e, ct.get k = some e → k.proto ≠ 0)
+    {cur : AMap Key Entry} (r : CleanRun tReal ct queue cur) (kq : Key × QVal) (hm : kq ∈ queue)
+    (x : Key) (e : Entry) (hg : cur.get x = some e) (hd : (cleanEntry cur kq.1 kq.2).get x = none) :
+    Removal false t now ct cur x e ∨ GapCase t now ct x e :=
+  (removal_gap_split t now ct cur x e).1
+    (interleaved_cleanup_safe_partial t now tReal ct queue hq hold hproto r kq hm x e hg hd)
+
+/-! ### Packets interleaved inside the scan's iteration -/
+
+/-- justification of a removal w.r.t. the map `ct` of the visit that judged it. -/
+def RemovalI (gap : Bool) (t : Timeouts) (now : Nat) (ct cur : AMap Key Entry) (x : Key) (e : Entry) : Prop :=
+  (ct.get x = some e ∧                                   -- untouched since that visit, and …
+    ( (e.typ ≠ .fwd ∧ expired t now x.proto e = true)    -- … itself idle past its timeout when judged
+    ∨ (∃ kf : Key, expired t now kf.proto e = true)     -- … the reverse entry of a queued pair, judged idle
+                                                         --   (under its own or its forward key's protocol)
+    ∨ (e.typ = .fwd ∧ ct.get e.revKey = none)            -- … a forward entry whose reverse entry was gone
+    ∨ (gap = true ∧ GapCase t now ct x e)))              -- the known finding
+  ∨ (∃ r p, ct.get e.revKey = some r ∧ expired t now p r = true ∧ cur.get e.revKey = some r)
+                                                         -- forward entry of a pair whose reverse entry was judged
+                                                         -- idle and is still untouched
+
+theorem clean_step_safeI_partial (t : Timeouts) (now tReal : Nat) (ct cur : AMap Key Entry) (kq : Key × QVal)
+    (hs : QSoundI t now ct kq)
+    (hold : ∀ k e, ct.get k = some e → e.lastSeen ≤ tReal)
+    (hproto : ∀ k e, ct.get k = some e → k.proto ≠ 0)
+    (htr : Traffic tReal ct cur)
+    (x : Key) (e : Entry) (hg : cur.get x = some e) (hd : (cleanEntry cur kq.1 kq.2).get x = none) :
+    RemovalI true t now ct cur x e := by
+  have hr := cleanEntry_deleted cur kq.1 kq.2 x e hg hd
+  unfold QSoundI at hs
+  have untouched : ∀ y ey e0, cur.get y = some ey → ct.get y = some e0 → ey.lastSeen = e0.lastSeen → ct.get y = some ey := by
+    intro y ey e0 h1 h2 h3
+    rcases htr y ey h1 with h | h
+    · exact h
+    · have := hold y e0 h2; omega
+  rcases hr with ⟨hp0, hxk, hl⟩ | ⟨hp, r1, hr1, hrl, hwhich⟩
+  · subst hxk
+    by_cases hdk : kq.2.other = dummyKey
+    · rw [if_pos hdk] at hs
+      obtain ⟨e0, he0, hl0, hj⟩ := hs
+      have hu := untouched _ e e0 hg he0 (by omega)
+      have hee : e0 = e := by rw [he0] at hu; cases hu; rfl
+      subst hee
+      refine Or.inl ⟨he0, ?_⟩
+      have hj' := hj
+      unfold Judged at hj
+      cases hty : e0.typ <;> simp only [hty] at hj
+      · exact Or.inl ⟨by simp, hj⟩
+      · rcases hj with hj | ⟨r, h1, h2, h3⟩
+        · exact Or.inr (Or.inr (Or.inl ⟨rfl, hj⟩))
+        · exact Or.inr (Or.inr (Or.inr ⟨rfl, he0, hty, r, h1, h2, h3⟩))
+      · exact Or.inl ⟨by simp, hj⟩
+    · rw [if_neg hdk] at hs
+      obtain ⟨r, hr, _, _⟩ := hs
+      exact absurd hp0 (hproto _ _ hr)
+  · have hdk : kq.2.other ≠ dummyKey := by
+      intro h; rw [h] at hp; exact hp rfl
+    rw [if_neg hdk] at hs
+    obtain ⟨r, hr, hrl0, hre⟩ := hs
+    have hu := untouched _ r1 r hr1 hr (by omega)
+    have hrr : r1 = r := by rw [hr] at hu; cases hu; rfl
+    subst hrr
+    rcases hwhich with hxo | ⟨hxk, hrev⟩
+    · subst hxo
+      rw [hg] at hr1; cases hr1
+      refine Or.inl ⟨hr, Or.inr (Or.inl ?_)⟩
+      rcases hre with h | h
+      · exact ⟨kq.1, h⟩
+      · exact ⟨kq.2.other, h⟩
+    · subst hxk
+      rcases hre with h | h
+      · exact Or.inr ⟨r1, _, by rw [hrev]; exact hr, h, by rw [hrev]; exact hr1⟩
+      · exact Or.inr ⟨r1, _, by rw [hrev]; exact hr, h, by rw [hrev]; exact hr1⟩
+
+/-- **Safety with packets interleaved inside the scan's iteration** (partial: the gap of the known
+finding).  `cur0` is the map when the cleaner starts; each visit's map is related to it by arbitrary
+traffic after that visit. -/
+theorem interleaved_scan_safe_partial (t : Timeouts) (now : Nat) (visits : List Visit) (ok : VisitsOK visits)
+    (cur0 : AMap Key Entry)
+    (hclock : ∀ v ∈ visits, ∃ τ, (∀ k e, v.1.get k = some e → e.lastSeen ≤ τ) ∧ Traffic τ v.1 cur0)
+    (hproto : ∀ v ∈ visits, ∀ k e, v.1.get k = some e → k.proto ≠ 0)
+    (order : AMap Key QVal) (hord : ∀ kq ∈ order, kq ∈ scanI t now visits)
+    (x : Key) (e : Entry) (hx : cur0.get x = some e) (hd : (clean cur0 order).get x = none) :
+    ∃ v ∈ visits, RemovalI true t now v.1 cur0 x e := by
+  obtain ⟨kq, hm, ct1, hsub, hg, hstep⟩ := clean_deleted' order cur0 x e hx hd
+  obtain ⟨v, hv, hs⟩ := scanI_queue_sound t now visits ok kq (hord kq hm)
+  obtain ⟨τ, hold, htr⟩ := hclock v hv
+  have h := clean_step_safeI_partial t now τ v.1 ct1 kq hs hold (hproto v hv) (traffic_of_sub htr hsub) x e hg hstep
+  refine ⟨v, hv, ?_⟩
+  rcases h with h | ⟨r, p, h1, h2, h3⟩
+  · exact Or.inl h
+  · exact Or.inr ⟨r, p, h1, h2, hsub _ _ h3⟩
+
 /-- the composition for a whole scan. -/
 theorem scan_then_clean_safe_partial (t : Timeouts) (now tReal : Nat) (ct ct' : AMap Key Entry)
     (items : List (Key × Entry)) (ok : ItemsOK ct items) (order : AMap Key QVal)
@@ -191,11 +318,100 @@ theorem cleanup_live_normal (t : Timeouts) (now : Nat) (ct : AMap Key Entry) (it
   have hs : (k, (⟨dummyKey, e.lastSeen, e.lastSeen⟩ : QVal)) ∈ scan t now ct items := scanEnd_has inv hk hn hq
   exact clean_live order ct' k _ (hall _ hs) rfl (fun e' he' => by rw [hun e' he'])
 
+/-- **Liveness of a NAT pair**: a forward/reverse pair (the only forward entry of that reverse entry)
+whose reverse entry is idle past its timeout when scanned, and which sees no packet before the cleaner
+runs, loses its reverse (tracking) entry in one scan + one cleaner pass — and its forward entry too
+when both carried the same time stamp (two plain queue items); when the time stamps differ the two are
+removed together by the pair item unless another queue item removed the reverse entry first. -/
+theorem cleanup_live_pair (t : Timeouts) (now : Nat) (ct : AMap Key Entry) (items : List (Key × Entry))
+    (ok : ItemsOK ct items) (kF kR : Key) (f r : Entry) (pr : Pair t now ct items kF kR f r)
+    (hmF : (kF, f) ∈ items) (hmR : (kR, r) ∈ items) (hpR : kR.proto ≠ 0)
+    (ct' : AMap Key Entry) (hunF : ∀ e', ct'.get kF = some e' → e' = f) (hunR : ∀ e', ct'.get kR = some e' → e' = r)
+    (order : AMap Key QVal) (hall : ∀ kq ∈ scan t now ct items, kq ∈ order) :
+    (clean ct' order).get kR = none ∧ (f.lastSeen = r.lastSeen → (clean ct' order).get kF = none) := by
+  obtain ⟨done, inv, pi, hdone, _⟩ := pair_loop pr items (fun _ h => h) [] ⟨[], []⟩
+    ⟨fun _ h => by simp at h, fun _ h => by simp at h⟩
+    ⟨by simp, by simp [AMap.get], fun _ h => by simp at h, fun _ h => by simp at h⟩
+    ok (fun _ _ => by simp)
+  have dF : kF ∈ done := hdone _ hmF
+  have dR : kR ∈ done := hdone _ hmR
+  generalize hsc : items.foldl (fun sc kv => scanEntry t now ct sc kv.1 kv.2) ⟨[], []⟩ = sc at inv pi
+  have hscan : scan t now ct items = sc.pend.foldl (fun q kp => q.set (endKey kp) (endVal kp)) sc.queue := by
+    unfold scan; rw [hsc, scanEnd_eq]
+  have hpend := pi.pend
+  simp only [dF, dR, if_true] at hpend
+  -- facts about pending items whose end-of-scan key is kF or kR
+  have noF : ∀ kp ∈ sc.pend, endKey kp = kF → kp.1 = kR ∧ kp.2.other ≠ dummyKey := by
+    intro kp hm he
+    have hps := inv.p kp hm
+    unfold PSound at hps
+    unfold endKey at he
+    by_cases hd : kp.2.other = dummyKey
+    · rw [if_pos hd] at hps
+      simp only [hd, ne_eq, not_true_eq_false, if_false] at he
+      obtain ⟨_, e0, he0, ht0, _⟩ := hps
+      rw [he, pr.hf] at he0; cases he0
+      have := pr.tf; rw [ht0] at this; cases this
+    · rw [if_neg hd] at hps
+      simp only [hd, ne_eq, not_false_eq_true, if_true] at he
+      obtain ⟨_, f', r', hf', _, hfr', _⟩ := hps
+      rw [he, pr.hf] at hf'; cases hf'
+      exact ⟨by rw [← hfr', pr.rk], hd⟩
+  by_cases heq : f.lastSeen = r.lastSeen
+  · -- equal time stamps: two plain items
+    simp only [heq, if_true] at hpend
+    have hqF := pi.qeq heq dF
+    have stepF : ∀ kp ∈ sc.pend, endKey kp = kF → (endVal kp).other = dummyKey ∧ (endVal kp).ts = f.lastSeen := by
+      intro kp hm he
+      obtain ⟨h1, h2⟩ := noF kp hm he
+      have hg := AMap.get_of_mem_nodup pi.pn (show (kp.1, kp.2) ∈ sc.pend from hm)
+      rw [h1, hpend] at hg
+      have : kp.2.other = dummyKey := by
+        have := congrArg (fun o => o.map QVal.other) hg
+        simpa using this.symm
+      exact absurd this h2
+    have stepR : ∀ kp ∈ sc.pend, endKey kp = kR → (endVal kp).other = dummyKey ∧ (endVal kp).ts = r.lastSeen := by
+      intro kp hm he
+      have hps := inv.p kp hm
+      unfold PSound at hps
+      unfold endKey at he
+      unfold endVal
+      by_cases hd : kp.2.other = dummyKey
+      · rw [if_pos hd] at hps
+        simp only [hd, ne_eq, not_true_eq_false, if_false] at he ⊢
+        obtain ⟨_, e0, he0, _, hl0, _⟩ := hps
+        rw [he, pr.hr] at he0; cases he0
+        exact ⟨trivial, hl0.symm⟩
+      · rw [if_neg hd] at hps
+        simp only [hd, ne_eq, not_false_eq_true, if_true] at he
+        obtain ⟨_, f', r', hf', hft', _⟩ := hps
+        rw [he, pr.hr] at hf'; cases hf'
+        have := pr.tr; rw [hft'] at this; cases this
+    obtain ⟨vF, hvF, hoF, htF⟩ := endFold_keep (fun v => v.other = dummyKey ∧ v.ts = f.lastSeen) kF sc.pend stepF sc.queue
+      ⟨_, hqF, rfl, rfl⟩
+    obtain ⟨vR, hvR, hoR, htR⟩ := endFold_create (fun v => v.other = dummyKey ∧ v.ts = r.lastSeen) kR sc.pend stepR sc.queue
+      (kR, ⟨dummyKey, r.lastSeen, 0⟩) (AMap.mem_of_get hpend) (by simp [endKey])
+    rw [← hscan] at hvF hvR
+    refine ⟨clean_live order ct' kR vR (hall _ hvR) (by rw [hoR]; rfl) (fun e' he' => by rw [hunR e' he', htR]),
+      fun _ => clean_live order ct' kF vF (hall _ hvF) (by rw [hoF]; rfl) (fun e' he' => by rw [hunF e' he', htF])⟩
+  · -- different time stamps: one pair item
+    simp only [heq, if_false] at hpend
+    have hq := pi.qne heq dF dR
+    have stepF : ∀ kp ∈ sc.pend, endKey kp = kF → endVal kp = ⟨kR, f.lastSeen, r.lastSeen⟩ := by
+      intro kp hm he
+      obtain ⟨h1, _⟩ := noF kp hm he
+      have hg := AMap.get_of_mem_nodup pi.pn (show (kp.1, kp.2) ∈ sc.pend from hm)
+      rw [h1, hpend] at hg
+      cases hg
+    obtain ⟨v, hv, hve⟩ := endFold_keep (fun v => v = ⟨kR, f.lastSeen, r.lastSeen⟩) kF sc.pend stepF sc.queue ⟨_, hq, rfl⟩
+    subst hve
+    rw [← hscan] at hv
+    refine ⟨clean_live_pair order ct' kF kR f.lastSeen r.lastSeen (hall _ hv) hpR
+      (fun e he => by rw [hunF e he]; exact pr.rk) (fun e he => by rw [hunR e he]), fun h => absurd h heq⟩
+
 /-! ### Liveness, step level (partial)
 
-End-to-end liveness is proved above for normal entries; for NAT pairs it is checked on the real code
-by the harness oracle `expired-not-removed` and by the correspondence; proved here are the two halves
-at step level: the scan step queues an expired plain
+End-to-end liveness is proved above for normal entries and for NAT pairs; the step-level halves: the scan step queues an expired plain
 entry with its time stamp, and the cleaner step removes an entry whose time stamp still matches. -/
 
 theorem scan_step_queues_expired_partial (t : Timeouts) (now : Nat) (ct : AMap Key Entry) (sc : ScanSt) (k : Key) (e : Entry)
@@ -285,6 +501,10 @@ theorem cleanup_safe_full_is_false : ¬ Removal false wT 1000 wct wct' wkF wF :=
       revert h1; simp only [wct, AMap.get, wF]; rw [if_neg (by decide)]; simp [eq_comm]
     subst e1; revert h3; decide
 
+/-- the witness of the finding is an instance of the `GapCase` (the exclusion is not wider than the finding). -/
+theorem witness_is_gap_case : GapCase wT 1000 wct wkF wF := by
+  refine ⟨by decide, by decide, wR, by decide, by decide, by decide⟩
+
 /-! ### Non-vacuity -/
 
 /-- a scan that queues a plain entry, a NAT pair (pair mode) and leaves a live entry alone. -/
@@ -303,6 +523,16 @@ example : Traffic 1000 nvCt nvCt := fun _ _ h => Or.inl h
 /-- an interleaved run: the reply packet of the witness arrives, then a cleaner step. -/
 example : ∃ cur, CleanRun 1000 wct (scan wT 1000 wct wct) cur :=
   ⟨_, (CleanRun.start.traffic witness_traffic).step (wkF, ⟨dummyKey, 100, 100⟩) (by decide)⟩
+/-- an interleaved scan: the forward entry is visited on `wct`, then the reply packet arrives, then the
+reverse entry is visited on `wct'` (no longer idle): only the forward entry is queued. -/
+def nvVisits : List Visit := [(wct, wkF, wF), (wct', wkR, { wR with lastSeen := 1001 })]
+example : VisitsOK nvVisits := ⟨by decide, by decide, by decide, by decide⟩
+example : scanI wT 1000 nvVisits = [(wkF, ⟨dummyKey, 100, 100⟩)] := by decide
+
+/-- the hypotheses of `cleanup_live_pair` hold for the witness pair. -/
+example : Pair wT 1000 wct wct wkF wkR wF wR :=
+  ⟨by decide, by decide, by decide, by decide, by decide, by decide, by decide, by decide⟩
+
 /-- the hypotheses of `cleanup_live_normal` hold for the first entry of `nvCt`. -/
 example : expired wT 1000 6 { wF with typ := .normal, lastSeen := 10, revKey := dummyKey } = true := by decide
 
